@@ -85,6 +85,10 @@ func callFn(fn core.Value, args ...core.Value) (r realRes) {
 			r = realRes{err: e, rterr: isRuntimeErr(e)}
 		}
 	}()
+	if len(args) > 4 {
+		// Thread.Call only has ready-made ArgSpecs for <= 4 arguments
+		return realRes{v: th.PushCall(fn, nil, &core.ArgSpec{Nargs: byte(len(args))}, args...)}
+	}
 	return realRes{v: th.Call(fn, args...)}
 }
 
